@@ -86,6 +86,15 @@ func (p *Program) mayBeEOFAt(tb *TB, v ssa.Value, facts []Atom, depth int) bool 
 		return false
 	}
 	if ph, ok := v.(*ssa.Phi); ok {
+		// the merged value itself is known not to be io.EOF where it is used
+		if len(facts) > 0 {
+			ts := tb.Term(v).String()
+			if _, excluded := findFact(facts, func(a Atom) bool {
+				return a.Kind == "cmp" && a.Op == "!=" && ((a.X.String() == ts && short(a.Y.String()) == "io.EOF") || (a.Y.String() == ts && short(a.X.String()) == "io.EOF"))
+			}); excluded {
+				return false
+			}
+		}
 		for i, e := range ph.Edges {
 			pr := ph.Block().Preds[i]
 			ef := tb.FactsAt(pr)
